@@ -383,6 +383,11 @@ func StopIterationValue(err error) Object {
 		v = e
 	}
 	if exc, ok := v.(*Exception); ok {
+		// a value attribute set on the instance (by a subclass's
+		// __init__, by assignment) is the value
+		if value, ok := exc.Dict["value"]; ok && value != nil {
+			return value
+		}
 		if args, ok := exc.Args.(Tuple); ok && len(args) > 0 {
 			return args[0]
 		}
